@@ -32,8 +32,12 @@ def bare_enforcer(default_rule=None, **overrides):
 
 def set_rules(enf, rules_dict, default_rule=None):
     from oslo_policy import policy
-    rules = policy.Rules.from_dict(rules_dict,
-                                   default_rule or enf.default_rule)
+    # without an explicit default the Rules object carries none of its own:
+    # attaching the enforcer's default rule is set_rules' business
+    if default_rule is None:
+        rules = policy.Rules.from_dict(rules_dict)
+    else:
+        rules = policy.Rules.from_dict(rules_dict, default_rule)
     enf.set_rules(rules, overwrite=True, use_conf=False)
     return rules
 
